@@ -283,3 +283,92 @@ Proof.
       destruct Hres as [(HTe & _) | (sq & _ & _ & Hst & _)]; [discriminate|assumption]. }
     apply run_finished; assumption.
 Qed.
+
+(* ------------------------------------------------------------------ *)
+(** * From a fresh reader *)
+From SeqIO Require Import Proofs.FastaInitP.
+
+(** the specification stream of a whole input: what [next] must return call by call *)
+Inductive fa_oitem :=
+| OiRec (s line : nat) (ends : list nat)
+| OiInvalidStart (line : nat) (found : byte).
+
+Definition fa_omatches (inp : list byte) (o : fa_out * option (nat * nat)) (it : option fa_oitem) : Prop :=
+  match it, o with
+  | Some (OiRec s line ends), (ORec rc, pos) => RecAt inp rc s ends /\ pos = Some (line, s)
+  | Some (OiInvalidStart line found), (OErr (FaInvalidStart l f), _) => l = line /\ f = found
+  | None, (ONone, _) => True
+  | _, _ => False
+  end.
+
+(** the offset-based specification stream of [inp] *)
+Inductive FaOSpec (inp : list byte) : list fa_oitem -> Prop :=
+| FO_empty : fa_ostart_of inp = OsEmpty -> FaOSpec inp []
+| FO_invalid ln b : fa_ostart_of inp = OsInvalid ln b -> FaOSpec inp [OiInvalidStart ln b]
+| FO_recs pos ln items : fa_ostart_of inp = OsRecs pos ln -> FaStream inp pos ln items ->
+    FaOSpec inp (map (fun it => let '(s, line, ends) := it in OiRec s line ends) items).
+
+Lemma matches_lift inp l1 l2 :
+  Forall2 (fa_matches inp) l1 l2 ->
+  Forall2 (fa_omatches inp) l1
+    (map (option_map (fun it => let '(s, line, ends) := it in OiRec s line ends)) l2).
+Proof.
+  induction 1 as [|o it l1 l2 H _ IH]; [constructor|]. cbn [map]. constructor; [|exact IH].
+  destruct it as [[[s line] ends]|]; destruct o as [[] pos]; cbn in *; auto.
+Qed.
+
+Lemma map_firstn_app_repeat {A B} (f : A -> B) n (l : list A) m :
+  map (option_map f) (firstn n (map Some l ++ repeat None m)) =
+  firstn n (map Some (map f l) ++ repeat None m).
+Proof.
+  rewrite <- firstn_map, map_app, !map_map. f_equal. f_equal.
+  induction m as [|m IH]; [reflexivity|]. cbn. f_equal. exact IH.
+Qed.
+
+Lemma run_finished_o inp fuel ffuel n : forall r, st r = FFinished ->
+  Forall2 (fa_omatches inp) (fa_run fuel ffuel n r) (repeat None n).
+Proof.
+  induction n as [|n IH]; intros r Hst; [constructor|].
+  cbn [fa_run repeat]. unfold fa_next. rewrite Hst. constructor; [exact I|]. apply IH; assumption.
+Qed.
+
+Theorem fa_next_refines_ospec inp cap0 rs ss pol fuel ffuel n items :
+  3 <= cap0 -> forallb item_ok rs = true -> PolOk pol ->
+  length rs + 2 <= ffuel -> length inp + 2 <= fuel ->
+  FaOSpec inp items ->
+  Forall2 (fa_omatches inp)
+          (fa_run fuel ffuel n (fa_new cap0 (mkSource inp 0 rs ss) pol))
+          (firstn n (map Some items ++ repeat None n)).
+Proof.
+  intros Hcap Hrs Hpol Hff Hfuel Hspec.
+  pose proof (fa_init_spec inp cap0 rs ss pol fuel ffuel Hcap Hrs Hff Hfuel) as Hinit.
+  cbv zeta in Hinit.
+  destruct n as [|n]; [constructor|].
+  set (r0 := fa_new cap0 (mkSource inp 0 rs ss) pol) in *.
+  assert (Hst0 : st r0 = FNew) by reflexivity.
+  inversion Hspec as [Hos | ln b Hos | pos ln its Hos Hstream]; subst items; rewrite Hos in Hinit.
+  - (* nothing but blank lines *)
+    destruct Hinit as (r1 & Heq & Hfin).
+    cbn [fa_run]. unfold fa_next at 1. rewrite Hst0, Heq. cbn [map app].
+    rewrite firstn_repeat_none, Nat.min_id. cbn [repeat]. constructor; [exact I|].
+    apply run_finished_o; assumption.
+  - destruct Hinit as (r1 & Heq & Hfin).
+    cbn [fa_run]. unfold fa_next at 1. rewrite Hst0, Heq. cbn [map app firstn].
+    constructor; [cbn; auto|].
+    rewrite firstn_repeat_none. rewrite Nat.min_l by lia.
+    apply run_finished_o; assumption.
+  - destruct Hinit as (r1 & off & Heq & W & He & Hs & Hsp & Hlt & Hgt & Hsq & Hpl & Hpb & Hst1 & Hc & Hpf & Hph & Hlog).
+    cbn [fa_run]. unfold fa_next at 1. rewrite Hst0, Heq.
+    destruct its as [|it its']; [inversion Hstream|].
+    destruct (next_tail_spec inp ffuel fuel (set_st r1 FParsing) off pos ln) as (r' & off' & Heq' & Hat & Hrec & _);
+      cbn [buf src cap start spos seqpos pline pbyte polf st set_st]; auto; try lia.
+    + eapply Win_ext; [| | |exact W]; reflexivity.
+    + rewrite Hpf; assumption.
+    + rewrite Heq'. cbn [map app firstn].
+      destruct (FaStream_inv _ _ _ _ _ Hstream) as [Hit _]. subst it.
+      constructor.
+      * cbn [fa_omatches]. split; [exact Hrec|]. eapply AtRec_position; eassumption.
+      * rewrite <- (map_firstn_app_repeat (fun it => let '(s, line, ends) := it in OiRec s line ends)).
+        apply matches_lift.
+        eapply run_after_rec; [lia|lia|exact Hat|exact Hstream].
+Qed.
